@@ -533,6 +533,10 @@ func addFors(r *rand.Rand, items [][]int64, o progOpts, cfg gcfg) [][]int64 {
 		if nestFirst {
 			nest()
 		}
+		if depth >= 1 && cnt == 0 && r.Intn(2) == 0 {
+			// an inner block that is repeated zero times may be empty as well: `j for 0 / rof`
+			body = nil
+		}
 		out = append(out, int64(len(body)))
 		for _, b := range body {
 			out = append(out, b...)
